@@ -287,8 +287,13 @@ func storeContractRun(id int, seed int64, scratch string, out *json.Encoder) {
 		target := p
 		away := false
 		if inject && backend == "file" {
-			if rng.Intn(2) == 0 {
+			if x := rng.Intn(3); x == 0 {
 				target = filep.NewPersistForPath(filepath.Join(dir, "does-not-exist"))
+			} else if x == 1 {
+				// a base path that is not a directory: looking the name up fails with an error other than "does not exist"
+				plain := filepath.Join(dir, ".plain-file")
+				os.WriteFile(plain, []byte("x"), 0644)
+				target = filep.NewPersistForPath(plain)
 			} else if os.Rename(dir, dir+".away") == nil {
 				// the same store object, its directory gone for the moment (the temporary file cannot be created)
 				away = true
